@@ -65,6 +65,26 @@ Fixpoint us (s : string) : ustring :=
   | String c r => N_of_ascii c :: us r
   end.
 
+(** a UTF-8 string literal as code points (the .v files are UTF-8; Coq strings are bytes) *)
+Fixpoint utf8_decode (fuel : nat) (b : list N) : ustring :=
+  match fuel with
+  | O => []
+  | S f =>
+      match b with
+      | [] => []
+      | c :: r =>
+          if (c <? 128)%N then c :: utf8_decode f r
+          else if (c <? 224)%N then
+            match r with c1 :: r' => ((c - 192) * 64 + (c1 - 128))%N :: utf8_decode f r' | _ => [] end
+          else if (c <? 240)%N then
+            match r with c1 :: c2 :: r' => ((c - 224) * 4096 + (c1 - 128) * 64 + (c2 - 128))%N :: utf8_decode f r' | _ => [] end
+          else
+            match r with c1 :: c2 :: c3 :: r' =>
+              ((c - 240) * 262144 + (c1 - 128) * 4096 + (c2 - 128) * 64 + (c3 - 128))%N :: utf8_decode f r' | _ => [] end
+      end
+  end.
+Definition u8 (s : string) : ustring := let b := us s in utf8_decode (List.length b) b.
+
 (** lexicographic order by code point = Rust's [str::cmp] (UTF-8 byte order
     coincides with code point order) *)
 Fixpoint ustr_cmp (a b : ustring) : comparison :=
